@@ -14,8 +14,9 @@ type Tree = BTreeMap<String, (Vec<u8>, i64)>;
 fn read_tree(root: &str) -> Tree {
     let mut t = Tree::new();
     for (p, c) in snapshot(root) {
-        let md = std::fs::metadata(format!("{}/{}", root, p)).unwrap();
-        let secs = md.modified().ok().and_then(|m| m.duration_since(std::time::UNIX_EPOCH).ok()).map(|d| d.as_secs() as i64).unwrap_or(0);
+        // a name that is not valid UTF-8 (only the tool under test can have created it) is kept under its lossy spelling
+        // with mtime -1: it then shows up as a file nobody planned
+        let secs = std::fs::metadata(format!("{}/{}", root, p)).ok().and_then(|md| md.modified().ok()).and_then(|m| m.duration_since(std::time::UNIX_EPOCH).ok()).map(|d| d.as_secs() as i64).unwrap_or(-1);
         t.insert(p, (c, secs));
     }
     t
@@ -126,7 +127,7 @@ fn parse(o: &RunObs, names: &std::collections::BTreeSet<String>) -> Parsed {
 }
 
 fn gen_name(r: &mut Rng) -> String {
-    let hostile = ["a", "b", "x y", "it's", "q\"d", "b\\s", "$HOME", "st*r", "wh?t", "[br]", "new\nline", "-dash", "ünï", ".hid", "a.b", "*", "c*d", "é", "日.b", "trail ", "nl\n", " lead", "tab\tx"];
+    let hostile = ["a", "b", "x y", "it's", "q\"d", "b\\s", "$HOME", "st*r", "wh?t", "[br]", "new\nline", "-dash", "ünï", ".hid", "a.b", "*", "c*d", "é", "日.b", "trail ", "nl\n", " lead", "tab\tx", "x\nb", "t\t1", "r\rEf", "e\x1b[0m"];
     r.pick(&hostile).to_string()
 }
 
